@@ -1090,6 +1090,7 @@ class EEA:
     def for_stmt(self, s, st: St):
         fr = st.fr
         e = self.expr(s.iter, st)
+        e = self.merge(e, self._generator_body_escapes(s.iter, st))
         st = self._kill_on_await(s.iter, st)
         it_t = self.prog.type_of(fr.module, s.iter) or ""
         # iteration protocol of external async iterators
@@ -1714,6 +1715,7 @@ class EEA:
             cur = st
             for g in e.generators:
                 out = self.merge(out, self.expr(g.iter, cur))
+                out = self.merge(out, self._generator_body_escapes(g.iter, cur))
                 facts = set(cur.facts)
                 tainted = set(cur.fr.tainted)
                 it = g.iter
@@ -2217,8 +2219,63 @@ class EEA:
             self.obligations += 1
             out = self.merge(out, self._one(S.TE, self.site(fr, e, "call-arity", self.arity_errors()[(fr.module.relpath, e.lineno)]), fr))
         targets = I.resolve_call(e, fr, facts=st.facts)
+        if self._deferred_generator(e, fr, targets):
+            return out  # the generator's body runs where the bound name is iterated (see for_stmt)
         for t in targets:
             out = self.merge(out, self.target_escapes(t, e, st))
+        return out
+
+    def _is_sync_generator(self, f) -> bool:
+        if f.is_async or f.node.decorator_list:
+            return False
+        return any(isinstance(n, (ast.Yield, ast.YieldFrom)) for n in self.I.own_nodes(f))
+
+    def _deferred_generator(self, e: ast.Call, fr, targets) -> str | None:
+        """`name = gen(...)` with gen a repository generator function: calling it runs nothing of its body (argument
+        evaluation apart); the body - and whatever it raises - runs where the generator object is iterated.  Supported:
+        a local bound once whose every use is the iterable of a for statement / comprehension of the same function."""
+        if not targets or not all(t.kind == "repo" and t.frame is not None and self._is_sync_generator(t.frame.func) for t in targets):
+            return None
+        par = self.prog.parents.get(e)
+        if isinstance(par, (ast.Assign, ast.AnnAssign)) and par.value is e:
+            tg = par.targets if isinstance(par, ast.Assign) else [par.target]
+            if len(tg) == 1 and isinstance(tg[0], ast.Name):
+                name = tg[0].id
+                f = fr.func
+                if len(self.I.local_assigns(f).get(name) or []) != 1:
+                    raise AnalysisError(f"generator object bound to `{name}` which is bound more than once in {f.qualname} ({fr.module.relpath}:{e.lineno}): where its body runs is not modelled")
+                for n in self.I.own_nodes(f):
+                    if isinstance(n, ast.Name) and n.id == name and isinstance(n.ctx, ast.Load):
+                        p2 = self.prog.parents.get(n)
+                        if not (isinstance(p2, (ast.For, ast.comprehension)) and p2.iter is n):
+                            raise AnalysisError(f"generator object `{name}` of {f.qualname} is used other than as the iterable of a loop ({fr.module.relpath}:{n.lineno}): where its body runs is not modelled")
+                return name
+        if isinstance(par, (ast.For, ast.comprehension)) and par.iter is e:
+            return None  # iterated where it is created
+        if isinstance(par, ast.Call) and isinstance(par.func, ast.Name) and par.func.id in ("list", "tuple", "set", "sorted", "dict", "frozenset", "sum", "any", "all", "max", "min") and e in par.args:
+            return None  # consumed on the spot
+        if isinstance(par, ast.YieldFrom):
+            return None
+        raise AnalysisError(f"generator object created by `{norm(e)[:60]}` ({fr.module.relpath}:{e.lineno}) is handed on: where its body runs is not modelled")
+
+    def _generator_body_escapes(self, it: ast.expr, st: St) -> dict:
+        """Iterating a local that holds a deferred generator object (see _deferred_generator): its body runs here."""
+        fr = st.fr
+        if not isinstance(it, ast.Name):
+            return {}
+        binds = self.I.local_assigns(fr.func).get(it.id) or []
+        if len(binds) != 1 or not isinstance(binds[0], ast.Call):
+            return {}
+        call = binds[0]
+        try:
+            targets = self.I.resolve_call(call, fr, facts=st.facts)
+        except AnalysisError:
+            return {}
+        if not targets or not all(t.kind == "repo" and t.frame is not None and self._is_sync_generator(t.frame.func) for t in targets):
+            return {}
+        out: dict = {}
+        for t in targets:
+            out = self.merge(out, self.target_escapes(t, call, st))
         return out
 
     def arity_errors(self) -> dict:
